@@ -75,11 +75,18 @@ func main() {
 	fmt.Printf("%d obligations generated in %v\n", len(all), time.Since(t0))
 	Discharge(all, counts, RunConfig{TimeoutMs: *timeout, Workers: 16})
 	bad := 0
+	vacAlive := map[string]bool{}
+	for _, o := range all {
+		if o.Kind == "vacuity" && o.Verdict != VUnsat {
+			vacAlive[o.Name] = true
+		}
+	}
 	for _, o := range all {
 		status := o.Verdict.String()
 		if o.Kind == "vacuity" {
-			if o.Verdict == VUnsat {
-				fmt.Println("VACUOUS PRECONDITION:", o.Name)
+			if !vacAlive[o.Name] {
+				vacAlive[o.Name] = true
+				fmt.Println("VACUOUS (contradictory precondition / unreachable loop body or exit):", o.Name)
 			}
 			continue
 		}
@@ -113,6 +120,12 @@ func main() {
 			}
 			hyps := o.BuildQuery(counts[o])
 			os.WriteFile("/tmp/govc_fail_"+fmt.Sprint(bad)+".smt2", []byte(Script(hyps, o.Goal, nil)), 0o644)
+		}
+	}
+	if d := os.Getenv("GOVC_DUMPALL"); d != "" {
+		os.MkdirAll(d, 0o755)
+		for i, o := range all {
+			os.WriteFile(fmt.Sprintf("%s/%03d_%s.smt2", d, i, strings.NewReplacer("/", "_", " ", "_", "*", "", "(", "", ")", "").Replace(o.Name)), []byte(Script(o.BuildQuery(counts[o]), o.Goal, nil)), 0o644)
 		}
 	}
 	fmt.Printf("total %d, not proved %d, %v\n", len(all), bad, time.Since(t0))
